@@ -216,7 +216,7 @@ impl ListenerSession {
     ensures
         old(self).session.link_by_input_handle@.contains_key(attach.handle.0)
             ==> r == Err::<(), SessionInnerError>(SessionInnerError::HandleInUse) && final(self).session.link_by_input_handle == old(self).session.link_by_input_handle
-                && final(self).link_listener.sent@ == old(self).link_listener.sent@,                                  // [C11.route.handle-in-use-refused] (listener side) an attach for a handle that still designates an attached link is refused and reaches neither a link nor the acceptor
+                && final(self).link_listener.sent@ == old(self).link_listener.sent@,                                  // [C11.route.handle-in-use-refused] [C15.listener.duplicate-attach-refused] (listener side) an attach for a handle that still designates an attached link is refused and reaches neither a link nor the acceptor
         r is Ok && final(self).link_listener.sent@.len() != old(self).link_listener.sent@.len()
             ==> final(self).link_listener.sent@ == old(self).link_listener.sent@.push(attach)
                 && final(self).pending_link_flows@.dom() =~= old(self).pending_link_flows@.dom().insert(attach.handle.0),   // [C15.listener.pending-attach-recorded] an attach handed to the application's acceptor marks exactly its own handle as "attach pending" (an entry of pending_link_flows): only for such handles does the session keep pipelined flows ([C15.listener.flow-for-unknown-handle-refused])
